@@ -1201,6 +1201,161 @@ theorem journal_paging_complete (s : State) (hd : Distinct s) (since : Nat) (P R
     exact ⟨hm.1, hPR last hlm e hr⟩
 
 
+/-! ### C15.7  the journal long-poll of the rpc handler (RawGetJournal / broadcastJournal)
+
+  A schedule is any sequence of subscribe / save / broadcast steps; `broadcast s ws` is a function of the database state `s`
+  and of the parked requests `ws` only, so the statements below — for EVERY reachable `s` and EVERY list `ws` of parked
+  requests (any clients, any From values, equal or different) — cover every schedule. -/
+
+theorem filter_all {l : List Entity} {p : Entity → Bool} (h : ∀ e ∈ l, p e = true) : l.filter p = l :=
+  List.filter_eq_self.mpr h
+
+/-- on an ascending page the trim loop of broadcastJournal keeps exactly the events newer than the client's From -/
+theorem trimSeen_eq_filter (since : Nat) : ∀ l : List Entity, Asc l →
+    trimSeen since l = l.filter (fun e => decide (since < e.version)) := by
+  intro l
+  induction l with
+  | nil => intro _; rfl
+  | cons x xs ih =>
+    intro h
+    obtain ⟨hx, hxs⟩ := List.pairwise_cons.mp h
+    unfold trimSeen
+    by_cases hle : x.version ≤ since
+    · have h1 : decide (x.version ≤ since) = true := by simpa using hle
+      have h2 : decide (since < x.version) = false := by simpa using hle
+      rw [List.dropWhile_cons, if_pos h1, List.filter_cons, if_neg (by simp [h2])]
+      exact ih hxs
+    · have h1 : ¬ decide (x.version ≤ since) = true := by simpa using hle
+      have h2 : decide (since < x.version) = true := by simpa using Nat.lt_of_not_le hle
+      rw [List.dropWhile_cons, if_neg h1, List.filter_cons, if_pos h2]
+      congr 1
+      symm
+      apply filter_all
+      intro e he
+      have := hx e he
+      simp; omega
+
+theorem minSince_le : ∀ (ws : List Waiter) (w : Waiter), w ∈ ws → minSince ws ≤ w.since := by
+  intro ws
+  induction ws with
+  | nil => intro w h; cases h
+  | cons a as ih =>
+    intro w h
+    cases as with
+    | nil => simp at h; subst h; simp [minSince]
+    | cons b bs =>
+      simp only [minSince]
+      rcases List.mem_cons.mp h with h | h
+      · subst h; exact Nat.min_le_left _ _
+      · exact Nat.le_trans (Nat.min_le_right _ _) (ih w h)
+
+theorem asc_sublist {l l' : List Entity} (h : Asc l) (hs : l'.Sublist l) : Asc l' := List.Pairwise.sublist hs h
+
+/-- the page a broadcast works on: ascending, current rows only, a prefix of everything newer than the smallest From -/
+theorem broadcastPage_spec (s : State) (hd : Distinct s) (ws : List Waiter) :
+    Asc (broadcastPage s ws) ∧ (∀ e ∈ broadcastPage s ws, e ∈ s.ents ∧ minSince ws < e.version) ∧
+    (ws ≠ [] → broadcastPage s ws <+: journalRows s.ents (minSince ws)) := by
+  unfold broadcastPage
+  cases ws with
+  | nil => simp [Asc]
+  | cons w rest =>
+    simp only [List.isEmpty_cons, Bool.false_eq_true, if_false]
+    have hpre : journal s (minSince (w :: rest)) 100 <+: journalRows s.ents (minSince (w :: rest)) := takeJournal_prefix _ _ _ _
+    refine ⟨asc_sublist (journalRows_asc s hd _) hpre.sublist, ?_, fun _ => hpre⟩
+    intro e he
+    exact (mem_journalRows _ _ _).mp (hpre.subset he)
+
+/-- "each client receives … only versions > its From, in ascending order" and nothing of the page is withheld:
+    every reply of a broadcast belongs to a parked request, is non-empty, strictly ascending (so no entity and no version twice),
+    consists of current rows newer than that request's From, and contains EVERY event of the page newer than its From. -/
+theorem broadcast_reply_spec (s : State) (hd : Distinct s) (ws : List Waiter) (c : Nat) (evs : List Entity)
+    (h : (c, evs) ∈ (broadcast s ws).2) :
+    ∃ w ∈ ws, w.client = c ∧ evs ≠ [] ∧ Asc evs ∧ (∀ e ∈ evs, w.since < e.version ∧ e ∈ s.ents) ∧
+      (∀ e ∈ broadcastPage s ws, w.since < e.version → e ∈ evs) := by
+  obtain ⟨hasc, hmem, _⟩ := broadcastPage_spec s hd ws
+  simp only [broadcast, List.mem_map, List.mem_filter] at h
+  obtain ⟨w, ⟨hw, hans⟩, heq⟩ := h
+  injection heq with hc hev
+  have hf := trimSeen_eq_filter w.since _ hasc
+  refine ⟨w, hw, hc, ?_, ?_, ?_, ?_⟩
+  · rw [← hev]; intro hnil; simp [answered, hnil] at hans
+  · rw [← hev, hf]; exact asc_sublist hasc List.filter_sublist
+  · intro e he
+    rw [← hev, hf, List.mem_filter] at he
+    exact ⟨by simpa using he.2, (hmem e he.1).1⟩
+  · intro e he hv
+    rw [← hev, hf, List.mem_filter]
+    exact ⟨he, by simpa using hv⟩
+
+/-- a request stays parked only if the page holds nothing newer than its From -/
+theorem broadcast_parked_spec (s : State) (hd : Distinct s) (ws : List Waiter) (w : Waiter) (h : w ∈ (broadcast s ws).1) :
+    w ∈ ws ∧ ∀ e ∈ broadcastPage s ws, e.version ≤ w.since := by
+  obtain ⟨hasc, _, _⟩ := broadcastPage_spec s hd ws
+  simp only [broadcast, List.mem_filter] at h
+  refine ⟨h.1, ?_⟩
+  intro e he
+  have hf := trimSeen_eq_filter w.since _ hasc
+  have hemp : trimSeen w.since (broadcastPage s ws) = [] := by
+    have := h.2; simp only [answered, Bool.not_not] at this; exact List.isEmpty_iff.mp this
+  rw [hf] at hemp
+  have := List.filter_eq_nil_iff.mp hemp e he
+  simpa using this
+
+/-- "…and eventually-missing nothing that exists at broadcast time": a reply contains every entity whose current version lies
+    between the request's From and the last version of the page (= the CurrentVersion the client continues from) -/
+theorem broadcast_misses_nothing (s : State) (hd : Distinct s) (ws : List Waiter) (c : Nat) (evs : List Entity)
+    (h : (c, evs) ∈ (broadcast s ws).2) (last : Entity) (hlast : (broadcastPage s ws).getLast? = some last) :
+    ∃ w ∈ ws, w.client = c ∧ ∀ e ∈ s.ents, w.since < e.version → e.version ≤ last.version → e ∈ evs := by
+  obtain ⟨w, hw, hc, _, _, _, hall⟩ := broadcast_reply_spec s hd ws c evs h
+  refine ⟨w, hw, hc, ?_⟩
+  intro e he hlo hhi
+  apply hall e _ hlo
+  have hne : ws ≠ [] := by intro h0; subst h0; cases hw
+  obtain ⟨_, _, hpre⟩ := broadcastPage_spec s hd ws
+  obtain ⟨R, hsplit⟩ := hpre hne
+  have hmin := minSince_le ws w hw
+  have hej : e ∈ journalRows s.ents (minSince ws) := (mem_journalRows _ _ _).mpr ⟨he, by omega⟩
+  rw [← hsplit] at hej
+  rcases List.mem_append.mp hej with hp | hr
+  · exact hp
+  · have := (journal_paging_complete s hd (minSince ws) _ R last hsplit.symm hlast e).mpr hr
+    have := ((mem_journalRows _ _ _).mp this).2
+    omega
+
+/-- a parked request means there was nothing newer than its From; an immediate reply is `journal s since limit`, whose
+    properties are `journal_latest_once_ascending` -/
+theorem subscribe_spec (s : State) (ws : List Waiter) (c since : Nat) (limit : Int) :
+    (subscribe s ws c since limit false).2 = none → ∀ e ∈ s.ents, e.version ≤ since := by
+  intro h e he
+  unfold subscribe at h
+  by_cases hj : (journal s since limit).isEmpty = true
+  · have hrows : journalRows s.ents since = [] := by
+      cases hr : journalRows s.ents since with
+      | nil => rfl
+      | cons x xs =>
+        exfalso
+        have := takeJournal_nonempty (journalLimit limit) (journalRows s.ents since) 0 0 (by rw [hr]; simp)
+        exact this (List.isEmpty_iff.mp hj)
+    apply Nat.le_of_not_lt
+    intro hlt
+    have := (mem_journalRows s.ents since e).mpr ⟨he, hlt⟩
+    rw [hrows] at this; cases this
+  · simp [hj] at h
+
+/-- a client that continues from the CurrentVersion it was given (the version of the last event it received) never receives a
+    version twice: consecutive replies concatenate to one strictly ascending sequence -/
+theorem client_session_ascending (r1 r2 : List Entity) (last : Entity) (h1 : Asc r1) (h2 : Asc r2)
+    (hl : r1.getLast? = some last) (hnew : ∀ e ∈ r2, last.version < e.version) : Asc (r1 ++ r2) := by
+  refine List.pairwise_append.mpr ⟨h1, h2, ?_⟩
+  intro a ha b hb
+  obtain ⟨ini, hini⟩ := List.getLast?_eq_some_iff.mp hl
+  have hle : a.version ≤ last.version := by
+    rw [hini] at ha h1
+    rcases List.mem_append.mp ha with h | h
+    · exact Nat.le_of_lt ((List.pairwise_append.mp h1).2.2 a h last (by simp))
+    · simp at h; subst h; exact Nat.le_refl _
+  exact Nat.lt_of_le_of_lt hle (hnew b hb)
+
 /-! ### non-vacuity: concrete histories on which the hypotheses above hold and the interesting branches are taken -/
 
 def mk (loc : Nat) (id : Int) (oldVersion : Nat) (create : Bool) (typ : Nat) (ns : Nat := 0) : SaveReq :=
@@ -1227,5 +1382,11 @@ example : (save s3 (mk 6 2 2 false tMetric)).2 = .err .constraint := by decide
 example : (save s3 (mk 6 3 3 false tMetric 4)).2 = .err .nsMissing := by decide
 example : (save s3 (mk 2 1 1 false tNamespace)).2 = .err .renameNs := by decide
 example : (journal s3 1 1000).map (·.id) = [2, 3] ∧ (journal s3 0 2).map (·.id) = [1, 2] ∧ (journal s3 2 (-1)).map (·.id) = [3] := by decide
+
+
+-- long-poll: client 1 parked at From 2 (it holds everything up to 2), client 2 parked at From 3 = the version of the pending event
+-- of entity 3; the broadcast reads from the smaller From: client 1 gets version 3, client 2 gets nothing and stays parked
+example : broadcast s3 [⟨1, 2⟩, ⟨2, 3⟩] = ([⟨2, 3⟩], [(1, journal s3 2 100)]) ∧ (journal s3 2 100).map (·.version) = [3] := by decide
+example : (subscribe s3 [] 7 3 1000 false) = ([⟨7, 3⟩], none) ∧ (subscribe s3 [] 7 1 1000 false).2 = some (journal s3 1 1000) := by decide
 
 end SH.C15
